@@ -10,7 +10,7 @@ from harness.mapenv import MEnv, MSer, MapInst, MTYPES, num_equal, pulled_back_f
 from harness.sexp import dumps, loads_all
 
 PID = 'C03'
-PROPS_MODULE = 'SympdeModel.Props.C03'
+PROPS_MODULE = ['SympdeModel.Props.C03', 'SympdeModel.Props.C03Inst']
 RULE = ('a case is (mapping type, dimension, expression, route); expressions are terminal (coordinates, constants, functions of '
         'every kind, components, first and second physical derivatives, sums, products, quotients, sin/cos/exp of coordinates) '
         'or generic (grad, div, curl, laplace, dot, inner of fields of the matching kinds with coordinate coefficients); routes are '
